@@ -5,3 +5,5 @@ open MtailVerif.C05
 #print axioms line_effect_depends_on_metrics_only
 #print axioms source_shape
 #print axioms MtailVerif.VM.run_coherent
+#print axioms MtailVerif.C05.line_skeletons
+#print axioms MtailVerif.C05.exec_skeletons
